@@ -233,7 +233,7 @@ int main(int argc, char **argv) {
             return rc;
         }
     }
-    if (o.thorough) { o.max_exh_n = 6; o.nrandom = 3000; o.shuffles = 4; o.rnd_max_n = 10; }
+    if (o.thorough) { o.max_exh_n = 7; o.nrandom = 30000; o.shuffles = 8; o.rnd_max_n = 11; o.rnd_max_dim = 12; }
     else { o.max_exh_n = 6; o.nrandom = 600; o.small_n = 3; }
     bool heavy_all = o.thorough;
     if (o.shard == 0 && (only.empty() || only == "C12")) {
